@@ -16,26 +16,43 @@ import (
 
 // concreteEval interprets a loop-free function over integer arguments:
 // switch / if / return with constant cases. ok=false if the shape is not supported.
-type cinterp struct {
-	info *types.Info
-	env  map[types.Object]int64
+type cval struct {
+	k byte // 'i' int, 's' string, 'n' nil, 'e' opaque non-nil value
+	i int64
+	s string
 }
 
-func (ci *cinterp) expr(e ast.Expr) (int64, bool) {
+type cinterp struct {
+	info *types.Info
+	env  map[types.Object]cval
+}
+
+func (ci *cinterp) expr(e ast.Expr) (cval, bool) {
 	if tv, ok := ci.info.Types[e]; ok && tv.Value != nil {
 		switch tv.Value.Kind() {
 		case constant.Int:
 			v, ok := constant.Int64Val(tv.Value)
-			return v, ok
+			return cval{k: 'i', i: v}, ok
 		case constant.Bool:
 			if constant.BoolVal(tv.Value) {
-				return 1, true
+				return cval{k: 'i', i: 1}, true
 			}
-			return 0, true
+			return cval{k: 'i', i: 0}, true
+		case constant.String:
+			return cval{k: 's', s: constant.StringVal(tv.Value)}, true
 		}
+	}
+	bi := func(c bool) (cval, bool) {
+		if c {
+			return cval{k: 'i', i: 1}, true
+		}
+		return cval{k: 'i', i: 0}, true
 	}
 	switch x := ast.Unparen(e).(type) {
 	case *ast.Ident:
+		if x.Name == "nil" {
+			return cval{k: 'n'}, true
+		}
 		if o := ci.info.ObjectOf(x); o != nil {
 			v, ok := ci.env[o]
 			return v, ok
@@ -44,105 +61,113 @@ func (ci *cinterp) expr(e ast.Expr) (int64, bool) {
 		a, ok1 := ci.expr(x.X)
 		b, ok2 := ci.expr(x.Y)
 		if !ok1 || !ok2 {
-			return 0, false
+			return cval{}, false
 		}
-		bi := func(c bool) (int64, bool) {
-			if c {
-				return 1, true
+		if a.k == 's' && b.k == 's' {
+			switch x.Op {
+			case token.EQL:
+				return bi(a.s == b.s)
+			case token.NEQ:
+				return bi(a.s != b.s)
 			}
-			return 0, true
+			return cval{}, false
+		}
+		if a.k != 'i' || b.k != 'i' {
+			return cval{}, false
 		}
 		switch x.Op {
 		case token.EQL:
-			return bi(a == b)
+			return bi(a.i == b.i)
 		case token.NEQ:
-			return bi(a != b)
+			return bi(a.i != b.i)
 		case token.LSS:
-			return bi(a < b)
+			return bi(a.i < b.i)
 		case token.LEQ:
-			return bi(a <= b)
+			return bi(a.i <= b.i)
 		case token.GTR:
-			return bi(a > b)
+			return bi(a.i > b.i)
 		case token.GEQ:
-			return bi(a >= b)
+			return bi(a.i >= b.i)
 		case token.LAND:
-			return bi(a != 0 && b != 0)
+			return bi(a.i != 0 && b.i != 0)
 		case token.LOR:
-			return bi(a != 0 || b != 0)
+			return bi(a.i != 0 || b.i != 0)
 		case token.ADD:
-			return a + b, true
+			return cval{k: 'i', i: a.i + b.i}, true
 		case token.SUB:
-			return a - b, true
+			return cval{k: 'i', i: a.i - b.i}, true
 		}
 	case *ast.UnaryExpr:
 		a, ok := ci.expr(x.X)
-		if !ok {
-			return 0, false
+		if !ok || a.k != 'i' {
+			return cval{}, false
 		}
 		switch x.Op {
 		case token.NOT:
-			if a == 0 {
-				return 1, true
-			}
-			return 0, true
+			return bi(a.i == 0)
 		case token.SUB:
-			return -a, true
+			return cval{k: 'i', i: -a.i}, true
 		}
-	case *ast.CallExpr: // conversion
+	case *ast.CallExpr:
 		if tv, ok := ci.info.Types[x.Fun]; ok && tv.IsType() && len(x.Args) == 1 {
 			return ci.expr(x.Args[0])
 		}
+		return cval{k: 'e'}, true // any other call yields an opaque non-nil value (fmt.Errorf, ...)
 	}
-	return 0, false
+	return cval{}, false
 }
 
-// returns (value, returned, ok)
-func (ci *cinterp) stmts(list []ast.Stmt) (int64, bool, bool) {
+// returns (values, returned, ok)
+func (ci *cinterp) stmts(list []ast.Stmt) ([]cval, bool, bool) {
 	for _, s := range list {
 		v, ret, ok := ci.stmt(s)
 		if !ok || ret {
 			return v, ret, ok
 		}
 	}
-	return 0, false, true
+	return nil, false, true
 }
 
-func (ci *cinterp) stmt(s ast.Stmt) (int64, bool, bool) {
+func (ci *cinterp) stmt(s ast.Stmt) ([]cval, bool, bool) {
 	switch x := s.(type) {
 	case *ast.ReturnStmt:
-		if len(x.Results) != 1 {
-			return 0, false, false
+		var out []cval
+		for _, r := range x.Results {
+			v, ok := ci.expr(r)
+			if !ok {
+				return nil, false, false
+			}
+			out = append(out, v)
 		}
-		v, ok := ci.expr(x.Results[0])
-		return v, true, ok
+		return out, true, true
 	case *ast.BlockStmt:
 		return ci.stmts(x.List)
 	case *ast.IfStmt:
 		if x.Init != nil {
-			return 0, false, false
+			return nil, false, false
 		}
 		c, ok := ci.expr(x.Cond)
 		if !ok {
-			return 0, false, false
+			return nil, false, false
 		}
-		if c != 0 {
+		if c.i != 0 {
 			return ci.stmts(x.Body.List)
 		}
 		if x.Else != nil {
 			return ci.stmt(x.Else)
 		}
-		return 0, false, true
+		return nil, false, true
 	case *ast.SwitchStmt:
 		if x.Init != nil {
-			return 0, false, false
+			return nil, false, false
 		}
-		var tag int64
+		var tag cval
 		hasTag := x.Tag != nil
 		if hasTag {
 			var ok bool
 			tag, ok = ci.expr(x.Tag)
 			if !ok {
-				return 0, false, false
+				return nil, false, false
 			}
 		}
 		var def *ast.CaseClause
@@ -155,9 +180,9 @@ func (ci *cinterp) stmt(s ast.Stmt) (int64, bool, bool) {
 			for _, e := range cc.List {
 				v, ok := ci.expr(e)
 				if !ok {
-					return 0, false, false
+					return nil, false, false
 				}
-				if (hasTag && v == tag) || (!hasTag && v != 0) {
+				if (hasTag && v.k == tag.k && v.i == tag.i && v.s == tag.s) || (!hasTag && v.i != 0) {
 					return ci.stmts(cc.Body)
 				}
 			}
@@ -165,11 +190,30 @@ func (ci *cinterp) stmt(s ast.Stmt) (int64, bool, bool) {
 		if def != nil {
 			return ci.stmts(def.Body)
 		}
-		return 0, false, true
+		return nil, false, true
 	case *ast.EmptyStmt:
-		return 0, false, true
+		return nil, false, true
 	}
-	return 0, false, false
+	return nil, false, false
+}
+
+// callFunc interprets fd on concrete arguments.
+func callFunc(fd *ast.FuncDecl, info *types.Info, args ...cval) ([]cval, error) {
+	ci := &cinterp{info: info, env: map[types.Object]cval{}}
+	i := 0
+	for _, f := range fd.Type.Params.List {
+		for _, n := range f.Names {
+			if i < len(args) {
+				ci.env[info.Defs[n]] = args[i]
+			}
+			i++
+		}
+	}
+	v, ret, ok := ci.stmts(fd.Body.List)
+	if !ok || !ret {
+		return nil, fmt.Errorf("%s: function shape not interpretable", fd.Name.Name)
+	}
+	return v, nil
 }
 
 // codedDFA wraps a Go function (state int, r rune) int interpreted concretely.
@@ -206,12 +250,11 @@ func newCodedDFA(fd *ast.FuncDecl, info *types.Info) (*codedDFA, error) {
 }
 
 func (c *codedDFA) step(s, r int64) (int64, error) {
-	ci := &cinterp{info: c.info, env: map[types.Object]int64{c.params[0]: s, c.params[1]: r}}
-	v, ret, ok := ci.stmts(c.fd.Body.List)
-	if !ok || !ret {
+	v, err := callFunc(c.fd, c.info, cval{k: 'i', i: s}, cval{k: 'i', i: r})
+	if err != nil || len(v) != 1 || v[0].k != 'i' {
 		return 0, fmt.Errorf("%s(%d,%d): function shape not interpretable", c.fd.Name.Name, s, r)
 	}
-	return v, nil
+	return v[0].i, nil
 }
 
 type LexCert struct {
